@@ -22,10 +22,10 @@ Record sst := mkS {
   s_frames : list sframe;             (* running fiber, innermost first *)
   s_callers : list (list sframe);     (* fibers waiting in `call` *)
   s_raised : bool;                    (* an exception has been raised and is looking for a handler *)
-  s_builtin : bool                    (* ... and it was raised by the VM or a native, not by `throw` *)
+  s_site : option fsite               (* ... raised by the VM / a native (else by `throw`) *)
 }.
 
-Definition sinit (fd : fdesc) : sst := mkS [mkSF fd 0 None] [] false false.
+Definition sinit (fd : fdesc) : sst := mkS [mkSF fd 0 None] [] false None.
 
 Definition set_top_pos (fs : list sframe) (p : nat) : list sframe :=
   match fs with f :: r => mkSF (sf_fn f) p (sf_fail f) :: r | [] => [] end.
@@ -39,21 +39,21 @@ Definition top_pos (fs : list sframe) : nat := match fs with f :: _ => sf_pos f 
 Definition sstep (s : sst) (o : op) : sst :=
   let fs := s_frames s in
   match o with
-  | OCall pc fd => mkS (mkSF fd 0 None :: set_top_pos fs pc) (s_callers s) false false
-  | OReturn => match fs with _ :: ((_ :: _) as r) => mkS r (s_callers s) false false | _ => s end
-  | OThrow pc => mkS (set_top_fail fs (Some pc)) (s_callers s) true false
-  | OFail pc => mkS (set_top_fail fs (Some pc)) (s_callers s) true true
+  | OCall pc fd => mkS (mkSF fd 0 None :: set_top_pos fs pc) (s_callers s) false None
+  | OReturn => match fs with _ :: ((_ :: _) as r) => mkS r (s_callers s) false None | _ => s end
+  | OThrow pc => mkS (set_top_fail fs (Some pc)) (s_callers s) true None
+  | OFail st pc => mkS (set_top_fail fs (Some pc)) (s_callers s) true (Some st)
   | OUnwind fc hc _ =>
     if (Nat.leb 1 fc && Nat.leb fc (List.length fs))%bool then
       let kept := struncate fc fs in
       let f := if hc then None
                else if Nat.ltb fc (List.length fs) then Some (top_pos kept)   (* the call that failed *)
                else top_fail kept in
-      mkS (set_top_fail kept f) (s_callers s) false false
+      mkS (set_top_fail kept f) (s_callers s) false None
     else s
-  | ORethrow _ => mkS fs (s_callers s) true false
-  | OFiberCall pc fd => mkS [mkSF fd 0 None] (set_top_pos fs pc :: s_callers s) false false
-  | OFiberEnd => match s_callers s with c :: cs => mkS c cs false false | [] => s end
+  | ORethrow _ => mkS fs (s_callers s) true None
+  | OFiberCall pc fd => mkS [mkSF fd 0 None] (set_top_pos fs pc :: s_callers s) false None
+  | OFiberEnd => match s_callers s with c :: cs => mkS c cs false None | [] => s end
   end.
 
 Definition srun (s : sst) (ops : list op) : sst := fold_left sstep ops s.
@@ -98,7 +98,7 @@ Definition op_okb (s : sst) (o : op) : bool :=
     match o with
     | OCall _ _ | OFiberCall _ _ => match fs with [] => false | _ => true end
     | OReturn => match fs with f :: _ :: _ => match sf_fail f with None => true | _ => false end | _ => false end
-    | OThrow _ | OFail _ => no_pending fs && match fs with [] => false | _ => true end
+    | OThrow _ | OFail _ _ => no_pending fs && match fs with [] => false | _ => true end
     | ORethrow _ => match top_fail fs with Some _ => true | None => false end
     | OFiberEnd => match s_callers s with [] => false | _ => true end
     | OUnwind _ _ _ => false
@@ -111,15 +111,18 @@ Fixpoint wf_ops (s : sst) (ops : list op) : bool :=
   | o :: r => op_okb s o && wf_ops (sstep s o) r
   end.
 
-(* KNOWN CLASS builtin_failure_no_error_ip (open finding while `fail_records` is false): a failure raised
-   by the VM or a native (not by `throw`) is taken by a finally-only handler of the SAME call. *)
-Definition kc_stepb (s : sst) (o : op) : bool :=
+(* KNOWN CLASS builtin_failure_no_error_ip (a finding while one of the two sites does not record the error
+   position): a failure raised at a site that does not record is taken by a finally-only handler of the SAME
+   call.  Empty when both sites record (LinesProofs.known_class_empty). *)
+Definition kc_stepb (fl : flags) (s : sst) (o : op) : bool :=
   match o with
-  | OUnwind fc false _ => s_raised s && s_builtin s && Nat.eqb fc (List.length (s_frames s))
+  | OUnwind fc false _ =>
+    s_raised s && Nat.eqb fc (List.length (s_frames s))
+    && match s_site s with Some st => negb (records fl st) | None => false end
   | _ => false
   end.
-Fixpoint known_classb (s : sst) (ops : list op) : bool :=
+Fixpoint known_classb (fl : flags) (s : sst) (ops : list op) : bool :=
   match ops with
   | [] => false
-  | o :: r => kc_stepb s o || known_classb (sstep s o) r
+  | o :: r => kc_stepb fl s o || known_classb fl (sstep s o) r
   end.
